@@ -489,6 +489,7 @@ func TestSolveProgramsF47(t *testing.T) {
 	g := genProgCase([]string{"f47"})
 	rec.Check(t, "solve", ev.N(8000, 120000), func(rt *rapid.T) {
 		c := g.Draw(rt, "case")
+		rec.Begin("solve", c)
 		rec.Report(rt, "solve", c, run(c, rec))
 	})
 }
@@ -499,6 +500,7 @@ func TestSolveProgramsCurves(t *testing.T) {
 	g := genProgCase(curveFields)
 	rec.Check(t, "solve", ev.N(800, 30000), func(rt *rapid.T) {
 		c := g.Draw(rt, "case")
+		rec.Begin("solve", c)
 		rec.Report(rt, "solve", c, run(c, rec))
 	})
 }
@@ -509,6 +511,7 @@ func TestSolveWide(t *testing.T) {
 	g := genWideCase([]string{"bn254", "bls12-377", "bw6-761", "bls12-381"})
 	rec.Check(t, "solve", ev.N(60, 3000), func(rt *rapid.T) {
 		c := g.Draw(rt, "case")
+		rec.Begin("solve", c)
 		rec.Report(rt, "solve", c, run(c, rec))
 	})
 }
